@@ -263,13 +263,13 @@ def run_cases(chk, specs, want_acc):
         os.unlink(path)
         flat = [o for ctx in contexts for o in ctx]
         nows = [s["now"] for s in c.steps]
-        jobs.append((c.init, flat[:len(c.steps)], nows))
+        jobs.append((c.init, flat[:len(c.steps)], nows, [s["rc"] for s in c.steps]))
         cases.append(c)
     mcases = []
-    for init, ops, nows in jobs:
+    for init, ops, nows, rcs in jobs:
         mops = []
-        for op, now in zip(ops, nows):
-            mo = container.model_op(op, now)
+        for k, (op, now) in enumerate(zip(ops, nows)):
+            mo = container.model_op(op, now, rc=rcs[k])
             mops.append(mo if mo is not None else [9])
         mcases.append((36, [container.model_state(init), mops, ACC_TYPES]))
     res = common.run_model_sharded(mcases)
@@ -556,6 +556,8 @@ def expected_rc(c, i):
     op = flat[i]
     if op[0] in ("add", "replace", "set") and op[1].bad in ("wrong_object", "format_int", "bad_date"):
         return None         # any exception (which one depends on what the code touches first), state unchanged
+    if op[0] in ("add", "replace", "set") and getattr(op[1], "duck", False) and c.steps[i]["rc"] != 0:
+        return None         # a stand-in object may be refused like a wrong object — but then with the state unchanged
     return c.msteps[i]["rc"]
 
 
@@ -814,7 +816,7 @@ def run(chk, pid):
     if pid == "C07":
         specs = gap_specs(chk) + full_comment_specs(chk) + specs
     if pid in ("C04", "C07", "C10", "C11"):
-        specs = held_object_specs(chk) + specs
+        specs = held_object_specs(chk) + standin_specs(chk) + specs
     chk.rule = ("operation histories: exhaustive over {add,replace,set} x 3 types x 2 sizes + remove x 3 types up to the stated "
                 "length on crafted files N in {1,2,3} (empty / one opaque block), random histories (2-25 calls, 1-6 contexts, "
                 "all nine block types, opaque pre-populated blocks, full tables, rejected calls of every cause injected) on "
@@ -1036,6 +1038,30 @@ def held_object_specs(chk):
             init = crafted(chk.work, "held_%s_%d_a" % (kind, rep), 3, [], rng)
             out.append(("crafted N=3 empty", init, [[("replace", use[0], None), ("add", use[1], None), ("replace", use[2], None)]],
                         "one block object kept, edited in place and handed in again"))
+    return out
+
+
+def standin_specs(chk):
+    """requests made with an object that is not a Block subclass but offers a block's whole interface (type, format,
+    nBytes, dates, _write): stored like the block it stands for, or refused like any wrong object — never half of each"""
+    rng = common.rng_for(chk.seed, "standin")
+    out = []
+    quick = chk.tier == "quick"
+    for rep in range(1 if quick else 5):
+        for kind in (["EV", "D3", "EM"] if quick else list(blocks.KINDS)):
+            a, b2 = container.small_block(kind, rng, 1), container.small_block(kind, rng, 2)
+            da = Spec(a.kind, a.fmt, a.v, duck=True)
+            db = Spec(b2.kind, b2.fmt, b2.v, duck=True)
+            other = container.small_block("PC" if kind != "PC" else "EV", rng, 1)
+            ty = blocks.TY[kind]
+            hists = [[[("add", other, None), ("add", a, "real")], [("replace", db, None), ("add", container.small_block("OS" if kind != "OS" else "EV", rng, 1), None)]],
+                     [[("add", a, "real"), ("add", other, None)], [("replace", db, "new comment"), ("remove", ty), ("add", da, "stand-in")]],
+                     [[("add", da, "stand-in first"), ("add", da, "again: the type is present")], [("remove", ty), ("add", a, None)]]]
+            if kind in SETTER:
+                hists.append([[("add", other, None), ("set", da)], [("set", db), ("set", a)]])
+            for h in hists:
+                init = crafted(chk.work, "standin_%s_%d_%d" % (kind, rep, len(out)), 4, [], rng)
+                out.append(("crafted N=4 empty", init, h, "a stand-in object that is not a Block subclass"))
     return out
 
 
